@@ -101,7 +101,7 @@ func fill(rt *rapid.T, v reflect.Value, depth int, label string) {
 			v.Set(reflect.Zero(t)) // nil
 		case mode == 1:
 			v.Set(reflect.MakeSlice(t, 0, 0)) // empty
-		case mode == 2 && t.Elem().Kind() == reflect.Uint8 && rapid.IntRange(0, 3).Draw(rt, label+"/big") == 0:
+		case mode == 2 && t.Elem().Kind() == reflect.Uint8:
 			// byte strings at the size boundaries of the formats that carry them (16-bit and 17-bit lengths)
 			n := rapid.SampledFrom([]int{65535, 65536, 131071, 131072, 200000}).Draw(rt, label+"/bigLen")
 			v.SetBytes(gen.Expand(rapid.IntRange(0, 3).Draw(rt, label+"/class"), rapid.Uint64().Draw(rt, label+"/seed"), n))
